@@ -1,8 +1,13 @@
 """C13 — EDF, FIFO and LSF honour their priority order (no priority inversion).
 
-spec/Greedy.tla is the oracle.  An *instance* is [now, tasks (offer order), pools
-(availability of partially occupied single-worker pools)], an *answer* is the
+spec/Greedy.tla is the oracle.  An *instance* is [now, preemptive, tasks (offer order),
+pools (availability of partially occupied single-worker pools)], an *answer* is the
 order in which Placements were returned plus (placed?, pool, strategy) per task.
+A task is fresh (RELEASED: remaining time = slowest strategy) or partially executed
+(`ran` = started with strategy s, executed `done`): PREEMPTED, or still RUNNING on a
+pool and offered to a preemptive EDF / LSF policy that plans on an emptied cluster.
+The real tasks are brought into that state with schedule / place / start / step /
+preempt, and their `remaining_time` is read back and compared with the spec's.
 
 M  TLC enumerates every instance of a bound as an initial state (one JVM per
    part of the bound) and checks `Theorem` (Plan has no inversion, is feasible and
@@ -96,7 +101,7 @@ def slices(size: str) -> dict:
     s = {}
     # --- key slices: the policy key varies over 0..3 / three slack levels (ties abound),
     # one resource name, 1-3 single-worker pools of capacity 2 with 0..2 free
-    kpools = [[_pool(a) for a in avs] for avs in ([[1]], [[2]], [[0], [2]], [[1], [1]], [[1], [2]], [[2], [1]], [[1], [1], [1]])]
+    kpools = [[_pool(a) for a in avs] for avs in ([[1]], [[2]], [[0], [2]], [[1], [1]], [[1], [2]], [[1], [1], [1]])]
     two = [[_st([1], 1)], [_st([2], 2)]]
     s["edf"] = dict(Kinds=["EDF"], Now=3, MaxTasks=n, KeyProfiles=_profiles(range(4), (0,), (0, 1)), StratLists=two, PoolSeqs=kpools)
     s["fifo"] = dict(Kinds=["FIFO"], Now=3, MaxTasks=n, KeyProfiles=_profiles((5,), range(4), (0, 1)), StratLists=two, PoolSeqs=kpools)
@@ -107,7 +112,7 @@ def slices(size: str) -> dict:
     s["lsf"] = dict(
         Kinds=["LSF"], Now=2, MaxTasks=n, KeyProfiles=_profiles((5, 6, 7), (0,), (0,)),
         StratLists=[_tk(one2), _tk(one2, 1, 1), _tk(two13), _tk(two13, 2, 2), _tk(two13, 1, 0), _tk(big2)],
-        PoolSeqs=kpools[:6],
+        PoolSeqs=kpools,
     )
     # --- preemptive EDF / LSF: the virtual cluster is emptied (deepcopy) and the task that is
     # RUNNING on pool 1 (at most one, offered last) competes with its live remaining time
